@@ -30,12 +30,16 @@ def run(ctx):
     # ---- R1 -----------------------------------------------------------------------------------------------------------------
     ctx.rule('R1', 'signal grants exactly the front waiter (or nothing when nobody waits); broadcast signals until the queue is empty; '
                    'waiting unlocks the mutex under the ownership assertion and enqueues at the back', 8)
-    v = A.view(sig)
-    for p in v.paths():
-        if p.exit in ('noreturn', 'cut', 'throw'):
+    # private helpers of the class are part of signal(): their paths are inlined (parameters bound by value) and the paths that constant propagation
+    # of the literal arguments refutes are dropped, so `helper(1)` looping once is what is analysed, not the helper in general
+    own_helper = lambda ev, callee: callee['q'].startswith(C + '::') and callee['q'] not in (sig['q'], bc['q'], aa['q'])     # noqa: E731
+    for evs_x, exit_x in A.ipaths(sig, inline=own_helper, byvalue=True):
+        if exit_x in ('noreturn', 'cut', 'throw'):
+            continue
+        if not lib.path_is_feasible(evs_x):
             continue
         ctx.count('paths')
-        evs = v.path_events(p)
+        evs = [e for e in evs_x if e.kind not in ('enter', 'leave')]
         fin = {}
         for e in evs:
             if e.kind == 'branch':
@@ -75,7 +79,11 @@ def run(ctx):
             bevs = [e for eid in v.blocks[body].get('e', []) for e in v.events_of(eid)]
             ok = any(e.kind == 'call' and e.q == C + '::signal' and e.obj == ('this',) for e in bevs) and v.blocks[body]['s'] and all(
                 s is not None for s in v.blocks[body]['s'])
-    ctx.check(ok, 'R1', 'broadcast: while (!queue.empty()) signal()', where(bc), 'loop shape %s' % ('recognised' if ok else 'not the draining loop'), key='R1|broadcast|drain loop')
+    wakes = [e for eid in range(len(bc['elems'])) for e in v.events_of(eid) if e.kind == 'call' and e.q.startswith(C + '::') and e.obj == ('this',)]
+    if ok or not wakes or (not loops and all(e.q == sig['q'] for e in wakes)):
+        ctx.check(ok, 'R1', 'broadcast: while (!queue.empty()) signal()', where(bc), 'loop shape recognised' if ok else ('broadcast wakes nobody' if not wakes else 'broadcast signals a bounded number of times: waiters can be left asleep'), key='R1|broadcast|drain loop')
+    else:
+        ctx.unrecognised('R1', 'broadcast: not the `while (!queue.empty()) signal()` idiom (calls %s): whether every waiter is woken is not decided' % sorted(set(e.q.rsplit('::', 1)[-1] for e in wakes)))
     v = A.view(aa)
     issuer = lib.parm_i(aa, 0)
     mutex = lib.parm_i(aa, 1)
@@ -98,13 +106,15 @@ def run(ctx):
         order = [e.q.rsplit('::', 1)[-1] for e in evs if e.kind == 'call' and (e.q == MUT + '::unlock' or (e.obj == Q and e.q.endswith('::push_back')))]
         ctx.check(order == ['unlock', 'push_back'], 'R1', 'acquire_async: unlock then enqueue', where(aa), str(order), key='R1|acquire_async|order')
     allowed = {aa['q']: {'insert_back'}, sig['q']: {'read_front', 'remove_front'}, ACQ + '::cancel': {'scan', 'erase'}}
+    eff, owners = lib.effective_allowed(allowed, lib.class_call_closure(P, A, C + '::'))
     for u in lib.field_uses(P, queue):
         if u.kind == 'write' and u.op == 'init':
             continue
         cls = u.kind if u.kind != 'call' else lib.CONTAINER_OPS.get(u.method, 'other:' + str(u.method))
         if cls == 'query':
             continue
-        ok = cls in allowed.get(u.fn['q'], set())
+        own = owners(u.fn['q'])      # a helper's operations belong to the entry points that call it
+        ok = bool(own) and all(cls in eff.get(o, set()) for o in own)
         ctx.check(ok, 'R1', 'queue op %s in %s' % (u.method or u.kind, u.fn['q'].replace('simgrid::kernel::activity::', '')), where(u.fn, u.line), 'class %s' % cls,
                   key='R1|%s|%s' % (u.fn['q'].rsplit('::', 1)[-1], cls))
 
